@@ -41,6 +41,8 @@ var menu = []menuPos{
 	// 7: history with a position already seen twice: a third occurrence is reachable in the tree
 	{name: "repetition", turn: board.White, pieces: []board.Placement{pl(board.H1, board.White, board.King), pl(board.H4, board.White, board.Pawn), pl(board.H8, board.Black, board.King), pl(board.H5, board.Black, board.Pawn)},
 		history: []board.Move{{From: board.H1, To: board.G1}, {From: board.H8, To: board.G8}, {From: board.G1, To: board.H1}, {From: board.G8, To: board.H8}, {From: board.H1, To: board.G1}, {From: board.H8, To: board.G8}, {From: board.G1, To: board.H1}}},
+	// 8: a capture leaves K+B v K: insufficient material reached exactly by the capturing move
+	{name: "capture-into-dead-draw", turn: board.White, pieces: []board.Placement{pl(board.E1, board.White, board.King), pl(board.C1, board.White, board.Bishop), pl(board.E8, board.Black, board.King), pl(board.G5, board.Black, board.Pawn)}},
 }
 
 // harnessZobrist: a fixed table of distinct words (splitmix64); only hash equality matters.
@@ -284,7 +286,11 @@ func Harness_C03_T4_D3() { harnessAlphaBeta(4, 3, leafCount()) }
 func Harness_C03_T4_D4() { harnessAlphaBeta(4, 4, leafCount()) }
 func Harness_C03_T5_D2() { harnessAlphaBeta(5, 2, leafCount()) }
 func Harness_C03_T5_D3() { harnessAlphaBeta(5, 3, leafCount()) }
+func Harness_C03_T6_D1() { harnessAlphaBeta(6, 1, leafCount()) }
 func Harness_C03_T6_D2() { harnessAlphaBeta(6, 2, leafCount()) }
+func Harness_C03_T7_D1() { harnessAlphaBeta(7, 1, leafCount()) }
+func Harness_C03_T8_D1() { harnessAlphaBeta(8, 1, leafCount()) }
+func Harness_C03_T8_D2() { harnessAlphaBeta(8, 2, leafCount()) }
 func Harness_C03_T7_D2() { harnessAlphaBeta(7, 2, leafCount()) }
 func Harness_C03_T7_D3() { harnessAlphaBeta(7, 3, leafCount()) }
 
